@@ -39,4 +39,34 @@ TEXTS = {
                 level_text=("Kernel-checked theorems (Properties/C16.lean): exprCnt never exceeds the budget on a normal return (n+1 at the panic), the budget panic is the documented error, "
                             "the check is the only difference to the unbudgeted step, and termination: with Memoize(false) every parse returns (fuel n+2 suffices) for every grammar incl. nullable loops and left recursion."),
                 level_note=RT_NOTE + " Termination with Memoize(true) is NOT proved: it is false for the unchanged code (finding D15)."),
+    "C02": dict(technique="Lean 4 theorems on a runtime model + differential correspondence + position oracle",
+                design_ref="DESIGN.md §5 C02",
+                level_text=("Kernel-checked theorems (Properties/C02.lean): an action runs exactly when its expression matched and then sees pos = match start, text = the input slice "
+                            "from the start to the current offset, arguments = the labels bound in the innermost scope; a code predicate's boolean alone decides, nothing is consumed; labels are bound on success. "
+                            "The statement that predicate/state blocks see the current position is FALSE for the unchanged code (known finding D2, reproduced by the model: C02_pred_ctx_is_stale). "
+                            "That line/col are a pure function of (input, offset) is checked on every block invocation of every generated case by an oracle independent of model and code; its Lean proof (PtOK invariant) is not finished."),
+                level_note=RT_NOTE),
+    "C06": dict(technique="twin execution (Memoize/Debug/Statistics flipped) on the real runtime + Lean lemmas on the memo table",
+                design_ref="DESIGN.md §5 C06",
+                level_text=("Every generated case is run on the real generated parser also with Debug, Statistics and (for terminating grammars) Memoize flipped and the results are compared on the property's own terms "
+                            "(success, value, code-block errors; everything for Debug/Statistics); the packrat bound exprCnt <= nodes*(len+1) is checked on every memoized run. Lean: the model has no input for Debug/Statistics at all; "
+                            "theorems cover the memo-table discipline (hit returns the recorded tuple without evaluating, miss records exactly the result, key = (offset, node)). The full memo-soundness statement is false for the unchanged code (known finding D7), "
+                            "so it is not claimed as proved."),
+                level_note=RT_NOTE + " Level 'other': differential twins + partial proof."),
+    "C10": dict(technique="Lean 4 theorem (function equality of the two template instantiations) + variant-pair execution",
+                design_ref="DESIGN.md §5 C10",
+                level_text=("Kernel-checked theorem C10_equiv: for every grammar (left-recursive included), code environment, input and option set with Memoize off, the optimized and the standard instantiation of the runtime model "
+                            "compute the same parse result (value, errors, stores, trace) when the grammar has state-change blocks. Without state blocks (the optimized parser has no store at all) the equivalence is decided by running every generated case on the variant pair (X, X + -optimize-parser) of real generated parsers."),
+                level_note=RT_NOTE),
+    "C12": dict(technique="Lean 4 theorems (bookkeeping = declarative max/filter; message shape) + differential correspondence + output oracle",
+                design_ref="DESIGN.md §5 C12",
+                level_text=("Kernel-checked theorems (Properties/C12.lean): folding failAt over any sequence of terminal-failure events yields exactly the greatest offset and the labels of the events at that offset (C12_bookkeeping), failAt is that step with the ! prefix under negation, "
+                            "the synthesised message is sorted, lists exactly the recorded labels with EOF last, and a failed parse with no recorded error returns exactly one error at the farthest-failure position. An oracle recomputes position and message for every failing generated case from the implementation's own raw expectation list and an independent position function."),
+                level_note=RT_NOTE + " Which events reach failAt (terminals failing under an even number of !, matching under an odd number) is the model's transcription of parseNotExpr/parse*Matcher, tied by correspondence."),
+    "C17": dict(technique="Lean 4 theorems (decoder vs RFC 3629 table; read/any behaviour) + differential correspondence + output oracle",
+                design_ref="DESIGN.md §5 C17",
+                level_text=("Kernel-checked theorems (Properties/C17.lean): every result of the UTF-8 decoder model is end of input, or the one-byte rune U+FFFD, or a rune of width n whose n bytes form a well-formed sequence per Unicode Table 3-7 (so truncations, overlongs, surrogates, >U+10FFFF and stray continuation bytes are one-byte U+FFFD); "
+                            "read records 'invalid encoding' at the byte's position exactly when the decoder returns the one-byte error rune and AllowInvalidUTF8 is off, never when it is on; offsets advance by the decoded width; the any matcher consumes an invalid byte; values are input slices. "
+                            "The decoder model is tied to utf8.DecodeRune through the malformed-input stream."),
+                level_note=RT_NOTE),
 }
